@@ -9,12 +9,14 @@ import vlib
 
 # Proof modules in dependency order (compiled by coqc directly until they are listed in coq/_CoqProject):
 #   C21/PolyModel.v C21/PolySpec.v C21/PolyList.v C21/PolyDict.v C21/PolyKron.v C21/PolyProofs.v
+#   C21/PolyFits.v C21/PolyProofs2.v
 PROOF_MODULES = []
 OBLIGATIONS = ["C21/P_%s.v" % n for n in (
     "repr_int", "repr_rat", "degree_lc_int", "degree_lc_rat", "add_sub_neg_int", "add_sub_neg_rat",
     "mul_generic_int", "mul_generic_rat", "kronecker_correct", "mul_upoly_int", "mul_upoly_rat",
     "pow_int", "pow_rat", "eval_diff_int", "eval_diff_rat", "divides_int", "divides_rat",
-    "divides_complete_int", "divides_complete_rat", "loops_terminate", "nonvacuous")]
+    "divides_complete_int", "divides_complete_rat", "pow_rat_simple", "divides_rat_simple",
+    "loops_terminate", "nonvacuous")]
 
 W32 = 1 << 32
 
@@ -194,6 +196,31 @@ def gen_expr(rng, fam, depth=0):
     return "(%s + %s)" % (gen_expr(rng, fam, depth + 1), gen_expr(rng, fam, depth + 1))
 
 
+def gen_expr_cases(rng, n):
+    """UExprPoly (driver only): coefficients are expressions in the symbol a"""
+    coefs = ["1", "-1", "2", "a", "-a", "a+1", "2*a", "a**2", "a-3", "3", "-7", "0", "a*(a+1)", "1/2", "a/3"]
+
+    def poly(maxn=4):
+        if rng.random() < 0.08:
+            return "-"
+        keys = sorted(rng.sample(range(0, 7), rng.randint(1, maxn)))
+        return ",".join("%d:%s" % (k, rng.choice(coefs)) for k in keys)
+    out = []
+    for _ in range(n):
+        op = rng.choice(["add", "sub", "mul", "mul", "neg", "pow", "eval", "diff", "deg"])
+        if op in ("add", "sub", "mul"):
+            a = poly()
+            b = a if rng.random() < 0.15 else poly()
+            out.append("E %s %s %s" % (op, a, b))
+        elif op == "pow":
+            out.append("E pow %s %d" % (poly(3), rng.choice([0, 1, 2, 3, 4])))
+        elif op == "eval":
+            out.append("E eval %s %s" % (poly(), rng.choice(["0", "1", "-2", "a", "a-2", "1/3"])))
+        else:
+            out.append("E %s %s" % (op, poly()))
+    return out
+
+
 def small_universe():
     """every pair of polynomials of length <= 3 with coefficients in {-1,0,1,2}"""
     import itertools
@@ -248,6 +275,9 @@ def nontrivial(c):
     t = c.split()
     if t[0] == "B":
         return c.count("x") >= 2
+    if t[0] == "E":
+        ps = [x for x in t[2:] if ":" in x]
+        return bool(ps) and all(x.count(",") >= 1 for x in ps) and (t[1] != "pow" or int(t[3]) >= 2)
     if t[1] == "vec":
         return sum(1 for x in t[2].split(",") if x.strip("-0")) >= 2
     ps = [parse_poly(x) for x in t[2:] if ":" in x or x == "-"]
@@ -262,6 +292,8 @@ def classify(c, what):
     t = c.split()
     if t[0] == "B":
         return "C21/roundtrip-differs-from-expand"
+    if t[0] == "E":
+        return "C21/uexprpoly-%s-wrong" % t[1]
     op = t[1]
     if op in ("mul", "gmul", "kmul"):
         a, b = parse_poly(t[2]), parse_poly(t[3])
@@ -280,6 +312,8 @@ def run(ctx):
     nrt = 150 if ctx.tier == "quick" else 2500
     rts = ["B rt %s %s" % (f, gen_expr(ctx.rng, f)) for f in ("I", "Q", "E") for _ in range(nrt // 3)]
     rts.append("B rt I (7+7*x+7*x**2+7*x**3+7*x**4+7*x**5+7*x**6)**2")
+    rts += ["E pow 0:a,1:1 0", "E pow - 2", "E eval - 3", "E mul - 0:a", "E sub 0:a,3:-2 0:a,3:-2", "E mul 0:a+1,2:3 0:2"]
+    rts += gen_expr_cases(ctx.rng, 150 if ctx.tier == "quick" else 2500)
     if ctx.tier == "thorough":
         cases += small_universe()
     explore(ctx, drv, model, cases, rts)
@@ -301,7 +335,11 @@ def run(ctx):
         "GMP operations (mpz add/mul/shift/and/tdiv_qr, mpq arithmetic with canonical results) are their mathematical meaning "
         "(Z / Qc operations of the Coq standard library)",
         "std::map<unsigned, T> behaves as a strictly sorted association list (lower_bound/insert/erase/operator[])",
-        "from_basic/as_symbolic and UExprPoly are covered by the round-trip oracle on generated expressions only, not by theorems",
+        "rational coefficients: pow needs n * deg a < 2^32 and divides deg b < 2^32 only (P_pow_rat_simple, P_divides_rat_simple); "
+        "integer coefficients: pow / divides are stated under zpow_fits / zdivides_fits (every product formed satisfies fits_u32)",
+        "UExprPoly (expression coefficients) instantiates the same ODictWrapper templates that the theorems cover at Z and Q; it is "
+        "exercised on the library only, against the expanded symbolic result (driver family E); from_basic/as_symbolic are covered "
+        "by the round-trip oracle on generated expressions only (family B), not by theorems",
     ]
 
 
@@ -357,5 +395,5 @@ def replay(ctx, rep):
     c = rep["replay"]["case"]
     print("case :", c)
     print("impl :", ctx.run_lines(drv, [c])[0])
-    if not c.startswith("B"):
+    if c[0] in "IQ":
         print("model:", ctx.run_lines(model, [c])[0])
